@@ -707,6 +707,10 @@ def pipeline(eng, p):
             vhdlFile_pkg.vhdlFile(list(lines))
         except vsg_exceptions.ClassifyError:
             return True  # this layout variant is not accepted by VSG: outside the property's quantifier (L05b judges acceptance)
+        except Exception:
+            if prop == "C19":
+                raise  # a rejection that is not a ClassifyError is C19's business (and L05b's); the other properties quantify over accepted inputs
+            return True
         slines = lines
     else:
         slines = sym_lines(eng, lines, tuple(window) if window else None)
